@@ -332,7 +332,7 @@ def worker_main(check, base_seed, episodes, selftest_n, sample_idx, systematic, 
             continue
         per_run = getattr(check, "RUN_WALL_S", RUN_WALL_S)
         a = run_episode(check, base_seed, indices, selftest_n, sample_idx, systematic,
-                        wall_s=per_run * 3 + 0.5 * len(indices) + 30)
+                        wall_s=per_run * 6 + 0.5 * len(indices) + 60)
         agg.merge(a)
         if len(agg.errors) > 3:
             break
@@ -358,20 +358,35 @@ def run_batch(check, base_seed, n_cases, episode_size, jobs, selftest_n, n_sampl
         for j in range(n_samples):
             sample_idx.add((j * max(1, n_cases // max(1, n_samples))) % n_cases)
     jobs = max(1, min(jobs, len(episodes) or 1))
+    try:
+        soft, _hard = resource.getrlimit(resource.RLIMIT_NOFILE)
+        if soft != resource.RLIM_INFINITY:
+            jobs = max(1, min(jobs, (soft - 16) // 3))       # one pipe per worker here, more inside each worker
+    except Exception:
+        pass
     stop_at = time.monotonic() + wall_cap_s
     procs = []
-    for j in range(jobs):
-        mine = episodes[j::jobs]
-        r, w = os.pipe()
-        pid = os.fork()
-        if pid == 0:
-            os.close(r)
+    try:
+        for j in range(jobs):
+            mine = episodes[j::jobs]
+            r, w = os.pipe()
+            pid = os.fork()
+            if pid == 0:
+                os.close(r)
+                try:
+                    worker_main(check, base_seed, mine, selftest_n, sample_idx, systematic, w, stop_at)
+                finally:
+                    os._exit(3)
+            os.close(w)
+            procs.append((pid, r))
+    except BaseException:
+        for pid, r in procs:                 # never leave workers behind when the batch cannot be set up
             try:
-                worker_main(check, base_seed, mine, selftest_n, sample_idx, systematic, w, stop_at)
-            finally:
-                os._exit(3)
-        os.close(w)
-        procs.append((pid, r))
+                os.kill(pid, signal.SIGKILL)
+                os.waitpid(pid, 0)
+            except Exception:
+                pass
+        raise
     total = Agg()
     truncated = 0
     for pid, r in procs:
@@ -730,7 +745,7 @@ def write_evidence(check, tier, base_seed, agg, wall_s, extra):
     evdir = os.environ.get("VERIF_EVIDENCE_DIR") or os.path.join(VERIF_DIR, "evidence")   # scratch dir for mutant runs
     os.makedirs(evdir, exist_ok=True)
     path = os.path.join(evdir, f"{check.ID}.json")
-    tmp = path + ".tmp"
+    tmp = f"{path}.{os.getpid()}.tmp"          # unique: two runs of one check may share an evidence directory
     with open(tmp, "w") as f:
         json.dump(doc, f, indent=1, default=str)
     os.replace(tmp, path)
@@ -781,6 +796,9 @@ def main_check(check, argv):
     tier = os.environ.get("VERIF_TIER", tier) if not any(a in ("quick", "thorough") for a in argv) else tier
     cfg = check.TIERS[tier]
     n_cases = int(os.environ.get("VERIF_CASES", cfg["cases"]))
+    if n_cases <= 0:
+        print("HARNESS-ERROR nothing to run (VERIF_CASES <= 0): no verdict", file=sys.stderr)
+        return 2
     print(f"VERIF_SEED={base_seed} check={check.ID} tier={tier} cases={n_cases} jobs={jobs} "
           f"repo={os.environ.get('VERIF_REPO', '/repo')}", flush=True)
 
